@@ -343,3 +343,39 @@ func msgJSON(m sdk.Msg) string {
 	}
 	return fmt.Sprintf("%T", m)
 }
+
+// mapGenesisPost: in the overlay build, import the genesis exported at every explored state under every iteration
+// order of its withdraw-address and request-context maps (types/genesis.go and genesis.go range over them).
+func mapGenesisPost(e *Engine, ev *RunEvidence) []Found {
+	if !mapOrderEnabled {
+		return nil
+	}
+	fresh := e.rig.Genesis(e.Sc.Params, e.Sc.Funds, e.Sc.Extra)
+	stt := &mapOrderStats{Sites: map[string]int64{}}
+	found := map[string]*Found{}
+	n := int64(0)
+	for i, nd := range e.nodes {
+		if nd.st == nil {
+			continue
+		}
+		n++
+		for _, v := range mapOrderGenesis(e.rig, e.Sc, nd.st, fresh, stt) {
+			if f, ok := found[v.Sig]; ok {
+				f.Count++
+			} else {
+				found[v.Sig] = &Found{Violation: v, Trace: append(e.trace(int32(i)), "<import-orders>"), Count: 1}
+			}
+		}
+	}
+	ev.Witnesses["C20:map-order/genesis-imports"] += n
+	ev.Witnesses["C20:map-order/genesis-imports-ranging-over-2+-keys"] += stt.Transitions
+	ev.Witnesses["C20:map-order/genesis-alternative-orders-executed"] += stt.Orders
+	for s, c := range stt.Sites {
+		ev.Witnesses["C20:map-order/site/"+s] += c
+	}
+	var out []Found
+	for _, f := range found {
+		out = append(out, *f)
+	}
+	return out
+}
